@@ -681,6 +681,7 @@ async fn read_both(
 fn read_json(r: &Read) -> Json {
     Json::obj()
         .set("after_step", r.step)
+        .set("second_read_in_a_row", r.second)
         .set("side", ["writer", "reader"][r.side])
         .set("at_ms", r.at_ms)
         .set("total_count", r.total)
